@@ -14,7 +14,7 @@ RULE = ('every mpz/mpq/mpf function of drv/api.inc with an output and a same-typ
         'tuples from the hostile value classes within the function\'s documented domain; the aliased destination is pre-shrunk to the smallest legal '
         'allocation so it must be reallocated while it is a source; the call with distinct variables holding the same values is the reference, and '
         'return value and every output must be identical (mpf: same precisions, bit-identical); the driver\'s digest monitor checks that read-only '
-        'operands are unchanged in both runs; mpn in-place/offset overlaps by the kernel sweeps. distinct = (function, partition, size buckets)')
+        'operands are unchanged in both runs, and for every function of the table (with or without outputs) on edge and random operands; mpn in-place/offset overlaps by the kernel sweeps. distinct = (function, partition, size buckets)')
 ASSUMPTIONS = ['the distinct-variable call is the reference (its value is judged by the other properties\' oracles)',
                'asan-tdbg turns a use of a source after the destination was reallocated into a heap-use-after-free']
 
@@ -90,6 +90,13 @@ def specs(rng, tier, wid, nw, env):
                     for rep in range(5 if q else 20):
                         k += 1
                         if k % nw == wid: yield ('alias', name, [list(c) for c in pat], (low, vn, rel), rng.getrandbits(48))
+    # second half of the property for EVERY function, also those without an output of the same type (predicates, conversions, comparisons):
+    # edge and random in-domain operands, the driver's digest monitor checks that no read-only operand changed (value or limbs) (A67)
+    import c04
+    for name in c04.EDGE_FNS:
+        for j in range(60 if q else 600):
+            k += 1
+            if k % nw == wid: yield ('immut', name, j, rng.getrandbits(48), 'edge' if j % 2 else 'rand')
     for grp in ('aors', 'logic', 'mul1', 'div1'):
         for n in range(1, 33 if q else 200):
             k += 1
@@ -97,6 +104,11 @@ def specs(rng, tier, wid, nw, env):
 
 def build(spec, env):
     if spec[0] == 'sweep': return sweep_case(spec[1], spec[2], spec[3], spec[4], 'C05')
+    if spec[0] == 'immut':
+        import c04
+        case = c04.edge_build(('edge',) + tuple(spec[1:]), env)
+        if case is not None: case.tag = ('immut',) + tuple(case.tag[1:]); case.check = lambda rep: []
+        return case
     name, pat, sd = spec[1], spec[2], spec[-1]; forced = tuple(spec[3]) if len(spec) == 5 else None
     r = random.Random(sd); ret, sig = api.FNS[name]
     cls_of = {}
